@@ -167,6 +167,95 @@ def voxel_stream(ctx, viol):
                 ctx.broke("correspondence:voxels-index", "getVoxelIndex%s: impl %d, model %s" % (info, got, idx))
 
 
+def skewed_large_cutoff_stream(ctx, md, viol):
+    """Strongly skewed cells (angles 50..130 degrees) with a cutoff between 0.3 and 0.499 of the smallest cell width and a few hundred atoms
+    in and around the primary cell: the regime in which the voxel window of compute_neighborlist spans a whole period of the grid.
+    Oracle: the brute-force minimum image over a reduced basis (exact in float64), pairs within 1e-5 nm of the cutoff left open."""
+    rng = ctx.rng
+    done = 0
+    for k in range(ctx.n(40, 300)):
+        L = np.array([rng.uniform(2.5, 6.0) for _ in range(3)]); A = np.array([rng.uniform(50.0, 130.0) for _ in range(3)])
+        ca, cb, cg = np.cos(np.radians(A))
+        if 1 - ca * ca - cb * cb - cg * cg + 2 * ca * cb * cg < 0.05:
+            continue                                                          # not a cell (or nearly flat)
+        t0 = md.Trajectory(np.zeros((1, 1, 3), dtype=np.float32), None, unitcell_lengths=[L], unitcell_angles=[A])
+        B = t0.unitcell_vectors[0].astype(np.float64)
+        w = float(width(B))
+        cut = rng.uniform(0.3, 0.499) * w
+        n = rng.choice([60, 150, 250])
+        X = np.array([[rng.random() for _ in range(3)] for _ in range(n)]) @ B
+        if k % 2:
+            X = X + np.array([[rng.randrange(-2, 3) for _ in range(3)] for _ in range(n)]) @ B
+        t = md.Trajectory(X[None].astype(np.float32), None, unitcell_lengths=[L], unitcell_angles=[A])
+        X32 = t.xyz[0].astype(np.float64)
+        nl = md.compute_neighborlist(t, cut)
+        nb = md.compute_neighbors(t, cut, np.arange(0, n, 7))[0]
+        # brute force in float64 over images -2..2 of a reduced basis: exact below half the width
+        Bf = t.unitcell_vectors[0].astype(np.float64)
+        D = X32[None, :, :] - X32[:, None, :]
+        frac = np.rint(D @ np.linalg.inv(Bf))
+        D = D - frac @ Bf
+        best = np.full((n, n), np.inf)
+        for i in range(-2, 3):
+            for j in range(-2, 3):
+                for kk in range(-2, 3):
+                    best = np.minimum(best, np.linalg.norm(D + (i * Bf[0] + j * Bf[1] + kk * Bf[2]), axis=-1))
+        np.fill_diagonal(best, np.inf)
+        sure = best < cut - 1e-5; open_ = np.abs(best - cut) <= 1e-5
+        done += 1
+        ctx.case(dict(cell=[L.round(3).tolist(), A.round(2).tolist()], cutoff_over_width=round(cut / w, 3), n_atoms=n) if len(ctx.samples) < 6 else None, ("skewed-large-cutoff", k))
+        ctx.count("skewed cells with a cutoff of 0.3-0.5 widths")
+        rp = dict(lengths=L.tolist(), angles=A.tolist(), cutoff=cut, width=w, n_atoms=n, seed=ctx.seed, case=k, xyz=t.xyz[0].tolist() if n <= 60 else None)
+        for i in range(n):
+            got = [int(j) for j in nl[i]]
+            want = set(np.nonzero(sure[i])[0].tolist()); maybe = set(np.nonzero(open_[i])[0].tolist())
+            if len(set(got)) != len(got) or not want <= set(got) or not set(got) <= want | maybe:
+                viol("neighborlist|skewed-large-cutoff|%s" % ("duplicates" if len(set(got)) != len(got) else ("missing" if not want <= set(got) else "extra")),
+                     "compute_neighborlist(cutoff=%.4f = %.3f widths) in the cell %s / %s: atom %d gets %s, within the cutoff are %s (missing %s, extra %s)" % (
+                         cut, cut / w, L.round(3).tolist(), A.round(2).tolist(), i, sorted(got)[:12], sorted(want)[:12], sorted(want - set(got))[:6], sorted(set(got) - want - maybe)[:6]), rp)
+                break
+        q = set(range(0, n, 7))
+        wantq = {j for j in range(n) if j not in q and any(sure[i, j] for i in q)}
+        maybeq = {j for j in range(n) if j not in q and any(open_[i, j] for i in q)}
+        gq = [int(j) for j in nb]
+        # compute_neighbors reports haystack atoms (here: all atoms) other than the query atom itself
+        wantq_all = {j for j in range(n) if any(sure[i, j] for i in q if i != j)}
+        maybeq_all = {j for j in range(n) if any(open_[i, j] for i in q if i != j)}
+        if len(set(gq)) != len(gq) or not wantq_all <= set(gq) or not set(gq) <= wantq_all | maybeq_all:
+            viol("neighbors|skewed-large-cutoff", "compute_neighbors(cutoff=%.4f = %.3f widths) in the cell %s / %s: missing %s, extra %s" % (
+                cut, cut / w, L.round(3).tolist(), A.round(2).tolist(), sorted(wantq_all - set(gq))[:6], sorted(set(gq) - wantq_all - maybeq_all)[:6]), rp)
+
+
+def degenerate_extent_stream(ctx, md, viol):
+    """Non-periodic systems whose extent along y or z is zero or minute (a planar molecule lying in a coordinate plane, up to rounding
+    noise), and cutoffs far beyond the system size: the voxel arithmetic must not overflow."""
+    rng = ctx.rng
+    for k in range(ctx.n(12, 80)):
+        n = rng.choice([2, 10, 50])
+        xyz = np.array([[rng.uniform(0, 2) for _ in range(3)] for _ in range(n)])
+        flat = rng.choice([None, 1, 2, (1, 2)])
+        eps = rng.choice([0.0, 1e-30, 1e-17, 1e-12, 1e-9])
+        for ax in ((flat,) if isinstance(flat, int) else (flat or ())):
+            xyz[:, ax] = np.array([rng.uniform(-1, 1) for _ in range(n)]) * eps + rng.choice([0.0, 0.7])
+        cut = rng.choice([0.5, 0.5, 3.0, 1e6, 1e11, 1e20, float("inf")])
+        t = md.Trajectory(xyz[None].astype(np.float32), None)
+        X = t.xyz[0].astype(np.float64)
+        try:
+            nl = md.compute_neighborlist(t, cut, periodic=False)
+        except Exception as e:
+            viol("neighborlist|degenerate|raises", "compute_neighborlist(cutoff=%s, periodic=False) on %d atoms (flat axes %s, extent %s) raised %s: %s" % (cut, n, flat, eps, type(e).__name__, e), dict(xyz=xyz.tolist(), cutoff=str(cut)))
+            continue
+        d = np.linalg.norm(X[None] - X[:, None], axis=-1); np.fill_diagonal(d, np.inf)
+        ctx.case(None, ("degenerate", k)); ctx.count("degenerate-extent systems")
+        for i in range(n):
+            want = set(np.nonzero(d[i] < cut - 1e-5)[0].tolist()); maybe = set(np.nonzero(np.abs(d[i] - cut) <= 1e-5)[0].tolist())
+            got = [int(j) for j in nl[i]]
+            if len(set(got)) != len(got) or not want <= set(got) or not set(got) <= want | maybe:
+                viol("neighborlist|degenerate-extent|%s" % ("huge-cutoff" if cut > 1e3 else "flat"), "compute_neighborlist(cutoff=%s, periodic=False), %d atoms, flat axes %s with extent %s: atom %d gets %d neighbours, %d lie within the cutoff" % (
+                    cut, n, flat, eps, i, len(got), len(want)), dict(xyz=xyz.tolist(), cutoff=str(cut), flat=str(flat), extent=eps))
+                break
+
+
 def run(ctx):
     warnings.filterwarnings("ignore")
     import mdtraj as md
@@ -275,6 +364,8 @@ def run(ctx):
                 if not (viaD - viaM <= set(got) <= viaD | viaM):
                     viol("neighbors|vs-distances", "compute_neighbors %s disagrees with compute_distances < cutoff: %s" % (got, sorted(viaD)), rp)
     voxel_stream(ctx, viol)
+    skewed_large_cutoff_stream(ctx, md, viol)
+    degenerate_extent_stream(ctx, md, viol)
     for key, (what, rp) in seen.items():
         ctx.violation(key, what, rp)
 
